@@ -276,10 +276,10 @@ PROPS = {
         level_note="the clause 'a Uint type with LIMBS != ceil(BITS/64) has no obtainable value' is a compile-time outcome (const-eval panic of Self::LIMBS) and cannot be expressed as a contract on a call: NOT decided "
                    "(the one hole found by reading, Uint::<64,2>::MAX, was repaired: fix 4621248); producers not swept: multi-limb division/modular/gcd/root/log results, rand generators; Ord/PartialOrd impls forward to the proved cmp (assumed forwarding)",
         technique="deductive contracts (Verus: wf as postcondition, cmp) + Kani canonical-closure sweep per width",
-        units=["core", "add", "kernels", "mul", "basics", "pow", "divw"],
+        units=["core", "add", "kernels", "mul", "basics", "pow", "divw", "bits", "shifts"],
         kani=dict(features=None,
-                  quick=hs("c04", r"_w(1|7|60|65)(_must_panic)?$", r"closure_(mul|pow|div|rem|checked_div|div_ceil|reduce_mod|add_mod)"),
-                  thorough=hs("c04"), timeout_thorough=5000,
+                  quick=hs("c04", r"_w(1|7|60|65)(_must_panic)?$", r"closure_(mul|pow|div|rem|checked_div|div_ceil|reduce_mod|add_mod)") + hs("c09", r"c09_from_(le|be)_w(8|65)_b(10|16|10p19)$"),
+                  thorough=hs("c04") + hs("c09", r"c09_from_(le|be)_w(1|8|60|65)_"), timeout_thorough=5000,
                   bounds="widths 1,7,60,65,100,250 (+64,128 for comparisons); expensive producers at 7 bits only"),
         explanation="wf() = sized and top limb <= mask; every producer under contract ensures it; Kani asserts limbs[L-1] <= MASK after each public producer",
         trusted=COMMON_TRUST,
